@@ -1,11 +1,13 @@
 \* random draws only; run with different -seed values
 CONSTANTS
   HMax = 0
+  SingleKinds = {}
   BothVis = FALSE
   PairVers = {}
   NRandom = 12500
   BuildMax = 0
   BuildIds = {}
+  StaticInit = TRUE
 INIT GInit
 NEXT GNext
 CHECK_DEADLOCK FALSE
